@@ -1203,11 +1203,23 @@ impl Cluster {
                                 .collect::<Vec<_>>()
                                 .join(",")
                         };
+                        let mut stat: Vec<(u32, i32, i32)> = self
+                            .opts
+                            .initial_cluster_for(*id)
+                            .iter()
+                            .map(|n| (n.id, n.role, n.status))
+                            .collect();
+                        stat.sort_unstable();
+                        let class = if now == stat {
+                            "it fell back to its static initial configuration"
+                        } else {
+                            "its view is neither the applied nor the static configuration"
+                        };
                         self.oracle.violate(
                             "C28",
                             format!("n{id}"),
                             format!(
-                                "node {id} restarted with membership [{}] but had applied [{}] before it went down",
+                                "node {id} restarted with membership [{}] but had applied [{}] before it went down ({class})",
                                 name(&now),
                                 name(&before)
                             ),
